@@ -229,6 +229,7 @@ func diffWarrior(got ref.Warrior, want ref.Warrior) string {
 
 // caseRoundTrip (C09)
 func caseRoundTrip(t *testing.T, tp *simrt.Tape, c *Ctx) (res Result) {
+	defer func() { res.stat("ticks", battleTicks); battleTicks = 0 }()
 	cfgP := genLoadConfig(tp)
 	cfg := cfgI(cfgP)
 	M := uint64(cfgP.CoreSize)
@@ -497,6 +498,7 @@ func checkLoadResult(res *Result, cfgP gp.SimulatorConfig, data []byte, got gi.W
 
 // caseLoadReject (C10)
 func caseLoadReject(t *testing.T, tp *simrt.Tape, c *Ctx) (res Result) {
+	defer func() { res.stat("ticks", battleTicks); battleTicks = 0 }()
 	cfgP := genLoadConfig(tp)
 	cfg := cfgI(cfgP)
 	M := uint64(cfgP.CoreSize)
